@@ -23,6 +23,7 @@ func checkC01(c *Ctx) {
 	c01BracketRegions(c)
 	c01SplatUpgrade(c)
 	unicodeEscapeRule(c, "escapes")
+	c01StripFlag(c)
 	c01EvalPure(c)
 	c.NotCovered("everything that is computation rather than table or shape: conversion at operand positions, conditional type unification, splat/for/template semantics, heredoc trimming")
 	c.NotCovered("the Ragel scanners (scan_tokens.rl, scan_string_lit.rl): token spellings and string-literal slicing are trusted")
@@ -966,4 +967,73 @@ func c01EvalPure(c *Ctx) {
 	c.Floor("eval.pure roots", len(roots), 20, "Value methods of the expression node types")
 	c.Floor("eval.pure functions", nFns, 60, "functions reachable from evaluation")
 	c.Floor("eval.pure writes", nWrites, 40, "writes classified")
+}
+
+// R9 strip.adjacent: a strip marker affects only the directly adjacent literal.
+func c01StripFlag(c *Ctx) {
+	c.Rule("R9 strip.adjacent: in parser.parseTemplateParts a boolean that is set when a `~}` strip marker is read (it starts false and is assigned true in the token loop: 'trim the next literal') never survives a token unchanged: on every path round the loop it is assigned anew, so it can only affect the token that directly follows the marker (the specification: a strip marker removes whitespace of the template literal directly adjacent to it)")
+	fn := c.P.LookupFunc("hclsyntax", "parser.parseTemplateParts")
+	if fn == nil {
+		c.CheckerFail("strip.adjacent", "anchor parser.parseTemplateParts does not resolve")
+		return
+	}
+	c.Fn(FuncName(fn))
+	n := 0
+	for _, b := range fn.Blocks {
+		for _, ins := range b.Instrs {
+			ph, ok := ins.(*ssa.Phi)
+			if !ok {
+				break
+			}
+			if bt, ok := ph.Type().Underlying().(*types.Basic); !ok || bt.Kind() != types.Bool {
+				continue
+			}
+			var back []int
+			initFalse := false
+			for i, p := range b.Preds {
+				if b.Dominates(p) {
+					back = append(back, i)
+				} else if cn, ok := ph.Edges[i].(*ssa.Const); ok && cn.Value != nil && cn.Value.String() == "false" {
+					initFalse = true
+				}
+			}
+			if len(back) == 0 || !initFalse {
+				continue
+			}
+			setTrue, carried := false, false
+			seen := map[ssa.Value]bool{}
+			var visit func(v ssa.Value, d int)
+			visit = func(v ssa.Value, d int) {
+				if seen[v] || d > 8 {
+					return
+				}
+				seen[v] = true
+				if v == ssa.Value(ph) {
+					carried = true
+					return
+				}
+				switch x := v.(type) {
+				case *ssa.Const:
+					if x.Value != nil && x.Value.String() == "true" {
+						setTrue = true
+					}
+				case *ssa.Phi:
+					for _, e := range x.Edges {
+						visit(e, d+1)
+					}
+				}
+			}
+			for _, i := range back {
+				visit(ph.Edges[i], 0)
+			}
+			if !setTrue {
+				continue
+			}
+			n++
+			c.Sites++
+			c.Check(!carried, "strip.adjacent", FuncName(fn)+":flag["+ph.Comment+"]", ph.Pos(), "assigned anew for every token",
+				"the flag `"+ph.Comment+"`, set by a strip marker, can go round the token loop unchanged: the marker then trims a literal that is not directly adjacent to it (`${a ~}${b} c` loses the space before c)")
+		}
+	}
+	c.Floor("strip.adjacent flags", n, 1, "the trim-next flag of parseTemplateParts")
 }
